@@ -477,7 +477,31 @@ impl<T: RealNumber + ScalarOperand + AddAssign + SubAssign + MulAssign + DivAssi
     }
 
     fn cov(&self) -> Self {
-        panic!("Not implemented");
+        let (m, n) = BaseMatrix::shape(self);
+
+        let mu = BaseMatrix::column_mean(self);
+
+        let mut cov: Self = BaseMatrix::zeros(n, n);
+
+        for k in 0..m {
+            for i in 0..n {
+                for j in 0..=i {
+                    BaseMatrix::add_element_mut(&mut cov, i, j, (BaseMatrix::get(self, k, i) - mu[i]) * (BaseMatrix::get(self, k, j) - mu[j]));
+                }
+            }
+        }
+
+        let m_t = T::from(m - 1).unwrap();
+
+        for i in 0..n {
+            for j in 0..=i {
+                BaseMatrix::div_element_mut(&mut cov, i, j, m_t);
+                let c = BaseMatrix::get(&cov, i, j);
+                BaseMatrix::set(&mut cov, j, i, c);
+            }
+        }
+
+        cov
     }
 }
 
